@@ -122,6 +122,26 @@ func genC20(seed uint64, tier string, idx int) (p *Plan) {
 				if g.r.chance(6) && (cmd == 0x0102 && !v19 || cmd == 0x0002) {
 					body = nil // an empty custom body where the type accepts one
 				}
+				if cmd == 0x0200 && g.r.chance(12) {
+					// a location report filled with vendor items up to the largest bodies a single frame can carry
+					target := g.r.pick(999, 1000, 1001, 1022, 1023, 1000+g.r.intn(24))
+					body = body[:28]
+					for id := byte(0xe1); len(body) < target; id++ {
+						l := target - len(body) - 2
+						if l > 255 {
+							l = 255
+						}
+						if rem := target - len(body) - 2 - l; rem == 1 {
+							l-- // never leave a single byte over: an item needs its two-byte head
+						}
+						if l < 0 {
+							body = append(body, 0)[:target]
+							break
+						}
+						body = append(append(body, id, byte(l)), g.r.bytes(l)...)
+					}
+					p.Faults = append(p.Faults, "input.body_at_frame_limit")
+				}
 				customBody = body
 				// custom bodies stay well-formed: the property speaks of frames whose body parses with the
 				// matching message type; the reply to a body the type rejects is outside its domain
